@@ -876,11 +876,23 @@ func ruleRevalidate(c *RC) *RuleResult {
 			n++
 			r.Sites++
 			d := c.A.newDemand(c.apiList)
+			// "the proposal is recorded": the primary's slot is filled — or, in a helper that has just stored the payload it
+			// was given into its sender's slot, that slot is filled and the sender is the primary (which the helper's
+			// caller knows, not the helper)
+			rsr := fRSR()
+			for _, prm := range cs.Fn.Params {
+				if namedName(prm.Type()) == "ConsensusPayload" {
+					pt := mkTerm(KParam, prm.Name())
+					pt.NonNil = true
+					snd := getter("ConsensusPayload", "ValidatorIndex", pt, true)
+					rsr = fOr(rsr, fAnd(nn(slot("PreparationPayloads", snd)), eq(snd, tPrimaryIndex)))
+				}
+			}
 			g := func(sn *Snap) *Formula {
 				if table == "ctx.CommitPayloads" {
-					return fAnd(fRSR(), fOr(fNot(fAMEV()), bl(fld("ctx.preBlockProcessed", false))))
+					return fAnd(rsr, fOr(fNot(fAMEV()), bl(fld("ctx.preBlockProcessed", false))))
 				}
-				return fRSR()
+				return rsr
 			}
 			if f := d.ProveAt(cs, g); f == nil {
 				r.ok(fmt.Sprintf("%s -> %s: header/pre-block obtainable at the call", cs.Fn.Name, fn.Name))
